@@ -145,6 +145,9 @@ def gen_flowir_pkg(rng):
         envs['myenv'] = {'DEFAULTS': 'PATH', 'FOO': '%(x)s-foo', 'BAR': 'bar'}
     if rng.random() < 0.4:
         envs['other'] = {'ZED': 'z', 'ALPHA': 'a', 'MID': '%(y)s'}
+    if rng.random() < 0.5:
+        # variables that refer to each other (two hops): the expansion must not depend on the order of the keys
+        envs['chain'] = {'VKA': '$VKB/a', 'VKB': '${VKC}/b', 'VKC': 'lit', 'VKD': '$VKA:$VKC', 'VKE': '$VKD'}
     prev = []
     for s in range(nstages):
         for j in range(rng.randint(1, 3)):
